@@ -10,7 +10,7 @@ use rayon::prelude::*;
 use serde_json::{json, Value};
 use std::collections::BTreeSet;
 
-pub const GAPS: [&str; 10] = [" ", "\n", "\r\n", "\t", "\u{2003}", "  ", "// c\n", "//é€\r\n", "// a\rb $ {\n", ""];
+pub const GAPS: [&str; 14] = [" ", "\n", "\r\n", "\t", "\u{2003}", "  ", "// c\n", "//é€\r\n", "// a\rb $ {\n", "", "//\n", "// #[a] $x // \"q\\\n", "// a\n//b\n", "//\r\n"];
 
 /// Every character with the Unicode White_Space property (the statement says "any Unicode whitespace"):
 /// used as single-gap deviations.
